@@ -1,36 +1,14 @@
 (* C05/Run.v — executable glue for the correspondence check (no theorem depends on it). *)
 From Coq Require Import ZArith QArith List Bool.
 From Abacus.Common Require Import Arr Num Corr.
-From Abacus.C05 Require Import Expr Gen Spec Model.
+From Abacus.HaloTable Require Import Expr Gen Values Show.
+From Abacus.C05 Require Import Spec.
 Import ListNotations.
 Local Open Scope Z_scope.
-
-Definition lookup (l : list (rawcol * Q)) (r : rawcol) : Q :=
-  match find (fun p => raw_idx (fst p) =? raw_idx r) l with Some p => snd p | None => 0%Q end.
-Definition member (l : list rawcol) (r : rawcol) : bool := existsb (fun x => raw_idx x =? raw_idx r) l.
-
-(* a query: column, the float the implementation returned (m) and a tolerance h.
-   h = 0: the model value is printed and compared exactly.
-   h > 0: the model only says whether the implementation's value lies within h (through squares for np.sqrt). *)
-Definition query := (col * Q * Q)%type.
-
-Definition Qleb := Qle_bool.
-
-Definition show (v : num) (m h : Q) : val :=
-  match v with
-  | NQ q => if Qeq_bool h 0 then VQ q else VB (Qleb (m - h)%Q q && Qleb q (m + h)%Q)
-  | NSqrt rad =>
-      let lo := if Qleb h m then ((m - h) * (m - h))%Q else 0%Q in
-      VB (Qleb lo rad && Qleb rad ((m + h) * (m + h))%Q)
-  | NNaN => VNone
-  | NEuler w code => VL [VZ w; VQ code]
-  | NUninit => VOob
-  end.
 
 (* units on?, BoxSize, VelZSpace_to_kms, one row of raw values (one component), raw columns with a non-zero component *)
 Definition case := (bool * Q * Q * list (rawcol * Q) * list rawcol * list query)%type.
 
-Definition units_of (on : bool) (box zkms : Q) : unitsym -> Q := if on then unitsQ box zkms else unit_off.
 
 Definition run (c : case) : val :=
   let '(on, box, zkms, rawl, anyl, qs) := c in
